@@ -140,9 +140,11 @@ def check(prop, tier, seed):
                 if re.search(rx, o['id']) and prop not in owners:
                     return False
             return True
+        fobj = [x for u in units if u.name == un for x in u.fns if x.name == fn][0]
+        is_bounded = bool(getattr(fobj, 'no_loop_contracts', False))
         for o in r.obligations:
             if counts(o):
-                all_obl.append(dict(o, unit=un, fn=fn))
+                all_obl.append(dict(o, unit=un, fn=fn, bounded=is_bounded))
         for o in r.failed():
             if not counts(o):
                 continue
@@ -246,7 +248,8 @@ def thorough_extras(prop, units, jobs, src, undecided):
 
 
 def write_evidence(prop, tier, seed, t0, all_obl, jobs, units, known_lines, undecided, spec, violations=(), extra=None, **kw):
-    counted = [o for o in all_obl if not o.get('known')]
+    counted = [o for o in all_obl if not o.get('known') and not o.get('bounded')]
+    bounded = [o for o in all_obl if o.get('bounded')]
     n_ok = sum(1 for o in counted if o['status'] == 'SUCCESS')
     fns = []
     assumptions = list(spec.get('assumptions', []))
@@ -263,7 +266,9 @@ def write_evidence(prop, tier, seed, t0, all_obl, jobs, units, known_lines, unde
         for c in f.replace:
             if c.startswith('vx_'):
                 assumptions.append('%s: callee %s is an abstract contract (ghost stand-in), not a verified body' % (fn, c))
-        if f.unwind:
+        if f.unwind and getattr(f, 'no_loop_contracts', False):
+            assumptions.append('%s: BOUNDED stand-in: its loop is unwound %d times with unwinding assertions instead of being closed by an invariant' % (fn, f.unwind))
+        elif f.unwind:
             assumptions.append('%s: harness input construction unwound to %d (inputs up to the stated maximum only)' % (fn, f.unwind))
     samples = [dict(obligation=o['id'], status=o['status']) for o in counted[:3]] + \
               [dict(obligation=o['id'], status=o['status']) for o in counted if 'postcondition' in o['id'] or 'loop_invariant' in o['id']][:12]
@@ -271,7 +276,10 @@ def write_evidence(prop, tier, seed, t0, all_obl, jobs, units, known_lines, unde
               coverage=dict(obligations=len(counted), discharged=n_ok,
                             checker_cmd='./check %s --tier %s  (per function: goto-cc --function h_<fn>; goto-instrument --dfcc h_<fn> --enforce-contract <fn> [--replace-call-with-contract g] --apply-loop-contracts; cbmc %s)' % (prop, tier, ' '.join(core.CBMC_CHECKS)),
                             trusted_base=trusted, samples=samples or [dict(note='no obligations generated')],
-                            functions_under_contract=fns, known_findings=list(known_lines), undecided=list(undecided),
+                            functions_under_contract=fns,
+                            bounded=dict(note='bounded stand-ins (loops unwound with unwinding assertions, no loop contract): checked, never counted under obligations/discharged',
+                                         obligations=len(bounded), passed=sum(1 for o in bounded if o['status'] == 'SUCCESS'),
+                                         functions=sorted(set('%s/%s' % (o['unit'], o['fn']) for o in bounded))), known_findings=list(known_lines), undecided=list(undecided),
                             excluded_known_finding_obligations=[o['id'] for o in all_obl if o.get('known')],
                             header=core.HEADER, header_sha=hashlib.sha256(open(core.HEADER, 'rb').read()).hexdigest()[:16],
                             claim=spec.get('claim', ''), **(extra or {})),
